@@ -103,14 +103,24 @@ Proof.
   destruct (pr s) eqn:E; auto. eapply move_reachable; [eassumption|apply restart_move; exact E].
 Qed.
 
-Lemma dstep_reachable sorted d e :
-  Forall (reachable cur_progs sorted) (d_fr d) -> Forall (reachable cur_progs sorted) (d_fr (dstep sorted d e)).
+Lemma job_step1_move sorted s : move sorted s (job_step1 sorted s).
+Proof. unfold job_step1. destruct (pr s); try (left; reflexivity); apply step1_move. Qed.
+
+Lemma dstep_reachable seq sorted d e :
+  Forall (reachable cur_progs sorted) (d_fr d) -> Forall (reachable cur_progs sorted) (d_fr (dstep seq sorted d e)).
 Proof.
   intro H. unfold dstep. destruct (d_up d).
   - destruct e; cbn [d_fr]; try exact H.
     + apply Forall_evict_first; exact H.
-    + eapply (Forall_at_pos _ (move sorted)); [apply move_reachable|intro; apply step1_move|exact H].
-    + eapply (Forall_at_pos _ (move sorted)); [apply move_reachable|intro; apply step1_move|exact H].
+    + destruct (nth j (d_jobs d) []) as [|h r]; [exact H|].
+      destruct (nth_error (d_fr d) h) as [s|]; [|exact H].
+      destruct (suicide_returned s); cbn [d_fr]; [exact H|].
+      eapply (Forall_at_pos _ (move sorted)); [apply move_reachable|intro; apply job_step1_move|exact H].
+    + destruct (nth_error (d_fr d) i) as [s|]; [|exact H].
+      destruct (seq && in_jobs i (d_jobs d) && is_deleting s); cbn [d_fr]; [exact H|].
+      eapply (Forall_at_pos _ (move sorted)); [apply move_reachable|intro; apply step1_move|exact H].
+    + destruct (seq && in_jobs i (d_jobs d)); cbn [d_fr]; [exact H|].
+      eapply (Forall_at_pos _ (move sorted)); [apply move_reachable|intro; apply step1_move|exact H].
     + eapply (Forall_at_pos _ (move sorted)); [apply move_reachable|intro; apply bulk1_move|exact H].
     + eapply (Forall_at_pos _ (move sorted)); [apply move_reachable|intro; apply seal1_move|exact H].
     + apply Forall_app. split; [exact H|]. constructor; [apply new_frac_reachable|constructor].
@@ -118,20 +128,24 @@ Proof.
   - destruct e; cbn [d_fr]; try exact H. apply Forall_restart_pending; exact H.
 Qed.
 
-Lemma drun_reachable sorted evs : forall d,
-  Forall (reachable cur_progs sorted) (d_fr d) -> Forall (reachable cur_progs sorted) (d_fr (drun sorted evs d)).
+Lemma frun_reachable seq sorted evs : forall d,
+  Forall (reachable cur_progs sorted) (d_fr d) -> Forall (reachable cur_progs sorted) (d_fr (fold_left (dstep seq sorted) evs d)).
 Proof.
-  unfold drun. induction evs as [|e r IH]; cbn; intros d H; [exact H|].
+  induction evs as [|e r IH]; cbn; intros d H; [exact H|].
   apply IH. apply dstep_reachable. exact H.
 Qed.
 
+Lemma drun_reachable sorted evs d :
+  Forall (reachable cur_progs sorted) (d_fr d) -> Forall (reachable cur_progs sorted) (d_fr (drun sorted evs d)).
+Proof. apply frun_reachable. Qed.
+
 (* ------------------------------------------------------------------ all or nothing, no reappearance *)
 
-Lemma par_good sorted evs d0 :
+Lemma par_good seq sorted evs d0 :
   Forall (reachable cur_progs sorted) (d_fr d0) ->
-  Forall (fun s => st_good true sorted s = true) (d_fr (drun sorted evs d0)).
+  Forall (fun s => st_good true sorted s = true) (d_fr (fold_left (dstep seq sorted) evs d0)).
 Proof.
-  intro H. apply (drun_reachable sorted evs) in H. rewrite Forall_forall in *.
+  intro H. apply (frun_reachable seq sorted evs) in H. rewrite Forall_forall in *.
   intros s Hs. apply good_all. apply H. exact Hs.
 Qed.
 
@@ -153,6 +167,8 @@ Lemma bulk1_dmono s : dmono s (bulk1 s).
 Proof. unfold bulk1. dm s. Qed.
 Lemma seal1_dmono sorted s : dmono s (seal1 sorted s).
 Proof. unfold seal1, setp. dm s. Qed.
+Lemma job_step1_dmono sorted s : dmono s (job_step1 sorted s).
+Proof. unfold job_step1. destruct (pr s); try apply dmono_refl; apply step1_dmono. Qed.
 Lemma restart_dmono sorted s b : dmono s (restart cur_progs sorted s b).
 Proof. unfold restart. dm s. Qed.
 
@@ -217,13 +233,20 @@ Proof.
     + apply IH. exact H.
 Qed.
 
-Lemma dstep_pw sorted d e : pw dmono (d_fr d) (d_fr (dstep sorted d e)).
+Lemma dstep_pw seq sorted d e : pw dmono (d_fr d) (d_fr (dstep seq sorted d e)).
 Proof.
   unfold dstep. destruct (d_up d).
   - destruct e; cbn [d_fr]; try (apply pw_refl; apply dmono_refl).
     + apply pw_evict_first.
-    + apply pw_at_pos; [apply dmono_refl|apply step1_dmono].
-    + apply pw_at_pos; [apply dmono_refl|apply step1_dmono].
+    + destruct (nth j (d_jobs d) []) as [|h r]; [apply pw_refl; apply dmono_refl|].
+      destruct (nth_error (d_fr d) h) as [s|]; [|apply pw_refl; apply dmono_refl].
+      destruct (suicide_returned s); cbn [d_fr]; [apply pw_refl; apply dmono_refl|].
+      apply pw_at_pos; [apply dmono_refl|apply job_step1_dmono].
+    + destruct (nth_error (d_fr d) i) as [s|]; [|apply pw_refl; apply dmono_refl].
+      destruct (seq && in_jobs i (d_jobs d) && is_deleting s); cbn [d_fr]; [apply pw_refl; apply dmono_refl|].
+      apply pw_at_pos; [apply dmono_refl|apply step1_dmono].
+    + destruct (seq && in_jobs i (d_jobs d)); cbn [d_fr]; [apply pw_refl; apply dmono_refl|].
+      apply pw_at_pos; [apply dmono_refl|apply step1_dmono].
     + apply pw_at_pos; [apply dmono_refl|apply bulk1_dmono].
     + apply pw_at_pos; [apply dmono_refl|apply seal1_dmono].
     + apply pw_app. apply dmono_refl.
@@ -231,9 +254,9 @@ Proof.
   - destruct e; cbn [d_fr]; try (apply pw_refl; apply dmono_refl). apply pw_restart_pending.
 Qed.
 
-Lemma drun_pw sorted evs : forall d, pw dmono (d_fr d) (d_fr (drun sorted evs d)).
+Lemma frun_pw seq sorted evs : forall d, pw dmono (d_fr d) (d_fr (fold_left (dstep seq sorted) evs d)).
 Proof.
-  unfold drun. induction evs as [|e r IH]; cbn; intro d; [apply pw_refl; apply dmono_refl|].
+  induction evs as [|e r IH]; cbn; intro d; [apply pw_refl; apply dmono_refl|].
   eapply pw_trans; [apply dmono_trans|apply dstep_pw|apply IH].
 Qed.
 
@@ -249,17 +272,26 @@ Proof.
   unfold not_doomed_visible in G. rewrite Hd in G. cbn in G. apply negb_true_iff in G. exact G.
 Qed.
 
-Lemma par_no_reappear sorted d0 evs evs' i s :
+Lemma par_no_reappear seq sorted d0 evs evs' i s :
   Forall (reachable cur_progs sorted) (d_fr d0) ->
-  nth_error (d_fr (drun sorted evs d0)) i = Some s -> doomed s = true ->
-  exists s', nth_error (d_fr (drun sorted evs' (drun sorted evs d0))) i = Some s' /\ doomed s' = true /\ visible s' = false.
+  nth_error (d_fr (fold_left (dstep seq sorted) evs d0)) i = Some s -> doomed s = true ->
+  exists s', nth_error (d_fr (fold_left (dstep seq sorted) evs' (fold_left (dstep seq sorted) evs d0))) i = Some s' /\ doomed s' = true /\ visible s' = false.
 Proof.
-  intros H0 Hn Hd. destruct (drun_pw sorted evs' (drun sorted evs d0) i s Hn) as [s' [Hn' Hm]].
+  intros H0 Hn Hd. destruct (frun_pw seq sorted evs' (fold_left (dstep seq sorted) evs d0) i s Hn) as [s' [Hn' Hm]].
   exists s'. split; [exact Hn'|]. split; [apply Hm; exact Hd|].
   apply (doomed_invisible sorted); [|apply Hm; exact Hd].
-  assert (F : Forall (reachable cur_progs sorted) (d_fr (drun sorted evs' (drun sorted evs d0)))).
-  { apply drun_reachable. apply drun_reachable. exact H0. }
+  assert (F : Forall (reachable cur_progs sorted) (d_fr (fold_left (dstep seq sorted) evs' (fold_left (dstep seq sorted) evs d0)))).
+  { apply frun_reachable. apply frun_reachable. exact H0. }
   rewrite Forall_forall in F. apply F. eapply nth_error_In. exact Hn'.
+Qed.
+
+Lemma par_all_or_nothing_gen seq sorted d0 evs :
+  Forall (reachable cur_progs sorted) (d_fr d0) ->
+  Forall (fun s => st_good true sorted s = true) (d_fr (fold_left (dstep seq sorted) evs d0))
+  /\ (forall evs' i s, nth_error (d_fr (fold_left (dstep seq sorted) evs d0)) i = Some s -> doomed s = true ->
+        exists s', nth_error (d_fr (fold_left (dstep seq sorted) evs' (fold_left (dstep seq sorted) evs d0))) i = Some s' /\ doomed s' = true /\ visible s' = false).
+Proof.
+  intro H. split; [apply par_good; exact H|]. intros evs' i s Hn Hd. eapply par_no_reappear; eauto.
 Qed.
 
 Lemma par_all_or_nothing sorted d0 evs :
@@ -267,9 +299,14 @@ Lemma par_all_or_nothing sorted d0 evs :
   Forall (fun s => st_good true sorted s = true) (d_fr (drun sorted evs d0))
   /\ (forall evs' i s, nth_error (d_fr (drun sorted evs d0)) i = Some s -> doomed s = true ->
         exists s', nth_error (d_fr (drun sorted evs' (drun sorted evs d0))) i = Some s' /\ doomed s' = true /\ visible s' = false).
-Proof.
-  intro H. split; [apply par_good; exact H|]. intros evs' i s Hn Hd. eapply par_no_reappear; eauto.
-Qed.
+Proof. apply par_all_or_nothing_gen. Qed.
+
+Lemma par_all_or_nothing_v0 sorted d0 evs :
+  Forall (reachable cur_progs sorted) (d_fr d0) ->
+  Forall (fun s => st_good true sorted s = true) (d_fr (drun_v0 sorted evs d0))
+  /\ (forall evs' i s, nth_error (d_fr (drun_v0 sorted evs d0)) i = Some s -> doomed s = true ->
+        exists s', nth_error (d_fr (drun_v0 sorted evs' (drun_v0 sorted evs d0))) i = Some s' /\ doomed s' = true /\ visible s' = false).
+Proof. apply par_all_or_nothing_gen. Qed.
 
 (* ------------------------------------------------------------------ what the process does with a
    fraction depends only on the pending program, not on the files *)
@@ -402,15 +439,28 @@ Proof.
     + destruct (IH Y i H) as [X' [E L]]. exists (x :: X'). rewrite E. cbn. auto.
 Qed.
 
-Lemma run_steps_split sorted sched : forall X Y, Forall (fun s => settled s = true) Y ->
-  exists X', d_fr (drun sorted (map DStep sched) (mkd true (X ++ Y))) = X' ++ Y /\ length X' = length X.
+Lemma at_pos_out {A} (f : A -> A) : forall l i, nth_error l i = None -> at_pos i f l = l.
 Proof.
-  induction sched as [|i r IH]; intros X Y H.
+  induction l as [|x r IH]; intros i H; [destruct i; reflexivity|].
+  destruct i; cbn in *; [discriminate|]. rewrite IH by exact H. reflexivity.
+Qed.
+
+Lemma dstep_v0_step sorted fr jobs i :
+  dstep false sorted (mkd true fr jobs) (DStep i) = mkd true (at_pos i (step1 sorted false) fr) jobs.
+Proof.
+  unfold dstep. cbn [d_up d_fr d_jobs andb]. destruct (nth_error fr i) eqn:E; [reflexivity|].
+  rewrite at_pos_out by exact E. reflexivity.
+Qed.
+
+Lemma run_steps_split sorted sched : forall X Y jobs, Forall (fun s => settled s = true) Y ->
+  exists X', d_fr (drun_v0 sorted (map DStep sched) (mkd true (X ++ Y) jobs)) = X' ++ Y /\ length X' = length X.
+Proof.
+  induction sched as [|i r IH]; intros X Y jobs H.
   - exists X. auto.
-  - cbn [map]. unfold drun. cbn [fold_left]. unfold dstep at 2. cbn [d_up d_fr].
+  - cbn [map]. unfold drun_v0. cbn [fold_left]. rewrite dstep_v0_step.
     destruct (at_pos_app (step1 sorted false) X Y i) as [X1 [E L]].
     { rewrite Forall_forall in *. intros s Hs. apply step1_settled. apply H. exact Hs. }
-    rewrite E. destruct (IH X1 Y H) as [X' [E' L']]. exists X'. split; [exact E'|congruence].
+    rewrite E. destruct (IH X1 Y jobs H) as [X' [E' L']]. exists X'. split; [exact E'|congruence].
 Qed.
 
 Lemma restart_all_app sorted : forall A B, exists A', restart_all sorted (A ++ B) = A' ++ restart_all sorted B
@@ -441,20 +491,20 @@ Proof.
 Qed.
 
 (* shape of the directory after an interrupted pass and a complete start *)
-Lemma crashed_pass_shape sorted k sched d0 : Forall (fun s => clean sorted s = true) d0 ->
-  exists A B, after_crashed_pass sorted k sched d0 = A ++ B
+Lemma crashed_pass_shape_v0 sorted k sched d0 : Forall (fun s => clean sorted s = true) d0 ->
+  exists A B, after_crashed_pass_v0 sorted k sched d0 = A ++ B
     /\ length A = length (firstn k d0) /\ length B = length (skipn k d0)
     /\ forallb alive B = true
     /\ Forall (fun s => settled s = true) (A ++ B).
 Proof.
-  intro H. unfold after_crashed_pass, drun. cbn [fold_left]. unfold dstep at 2. cbn [d_up d_fr].
+  intro H. unfold after_crashed_pass_v0, drun_v0. cbn [fold_left]. unfold dstep at 2. cbn [d_up d_fr d_jobs].
   rewrite evict_first_all_listed.
   2:{ rewrite Forall_forall in *. intros s Hs. eapply clean_listed. apply H. exact Hs. }
   assert (HY : Forall (fun s => clean sorted s = true) (skipn k d0)).
   { rewrite Forall_forall in *. intros s Hs. apply H. rewrite <- (firstn_skipn k d0). apply in_or_app. right. exact Hs. }
-  destruct (run_steps_split sorted sched (map evict1 (firstn k d0)) (skipn k d0)) as [X' [E L]].
+  destruct (run_steps_split sorted sched (map evict1 (firstn k d0)) (skipn k d0) ([] ++ [evict_pos k 0 d0])) as [X' [E L]].
   { rewrite Forall_forall in *. intros s Hs. eapply clean_settled. apply HY. exact Hs. }
-  unfold drun in E. rewrite E. rewrite map_app.
+  unfold drun_v0 in E. rewrite E. rewrite map_app.
   destruct (restart_all_app sorted (map crash1 X') (map crash1 (skipn k d0))) as [A [EA [LA SA]]].
   destruct (restart_all_clean sorted (skipn k d0) HY) as [B1 [B2 B3]].
   exists A, (restart_all sorted (map crash1 (skipn k d0))). split; [exact EA|].
@@ -520,11 +570,11 @@ Proof.
     rewrite firstn_all2 in LX by lia. apply firstn_all2. lia.
 Qed.
 
-Lemma par_restart_bound sorted k sched d0 : Forall (fun s => clean sorted s = true) d0 ->
-  length (after_crashed_pass sorted k sched d0) = length d0
-  /\ forallb alive (skipn k (after_crashed_pass sorted k sched d0)) = true.
+Lemma par_restart_bound_v0 sorted k sched d0 : Forall (fun s => clean sorted s = true) d0 ->
+  length (after_crashed_pass_v0 sorted k sched d0) = length d0
+  /\ forallb alive (skipn k (after_crashed_pass_v0 sorted k sched d0)) = true.
 Proof.
-  intro H. destruct (crashed_pass_shape sorted k sched d0 H) as [A [B [E [LA [LB [HB _]]]]]].
+  intro H. destruct (crashed_pass_shape_v0 sorted k sched d0 H) as [A [B [E [LA [LB [HB _]]]]]].
   rewrite E. split.
   - rewrite app_length, LA, LB, <- app_length, firstn_skipn. reflexivity.
   - assert (F : firstn k (A ++ B) = A) by (eapply firstn_app_exact; eauto).
@@ -533,12 +583,12 @@ Proof.
     rewrite G. exact HB.
 Qed.
 
-Lemma par_prefix_eventually sorted k sched k' d0 : Forall (fun s => clean sorted s = true) d0 ->
-  let d1 := after_crashed_pass sorted k sched d0 in
+Lemma par_prefix_eventually_v0 sorted k sched k' d0 : Forall (fun s => clean sorted s = true) d0 ->
+  let d1 := after_crashed_pass_v0 sorted k sched d0 in
   count_true (map alive (firstn k d1)) <= k' ->
   prefix_shape (map alive (after_next_pass sorted k' d1)) = true.
 Proof.
-  intros H d1. subst d1. destruct (crashed_pass_shape sorted k sched d0 H) as [A [B [E [LA [LB [HB HS]]]]]].
+  intros H d1. subst d1. destruct (crashed_pass_shape_v0 sorted k sched d0 H) as [A [B [E [LA [LB [HB HS]]]]]].
   rewrite E. rewrite (firstn_app_exact A B k d0 LA LB). intro Hc.
   rewrite next_pass_pat by exact HS. rewrite map_app. apply pat_prefix; [exact Hc|apply forallb_map_alive; exact HB].
 Qed.
@@ -547,23 +597,332 @@ Qed.
 
 (* two outsiders; the goroutine of the NEWER one does its first rename; crash; complete start:
    the older fraction is served, the newer one is gone *)
-Lemma par_prefix_at_restart_refuted :
+Lemma par_prefix_at_restart_v0_refuted :
   exists sorted k sched d0, Forall (fun s => clean sorted s = true) d0 /\
-    prefix_shape (map alive (after_crashed_pass sorted k sched d0)) = false.
+    prefix_shape (map alive (after_crashed_pass_v0 sorted k sched d0)) = false.
 Proof.
   exists true, 2, [1; 1], [clean_sealed true; clean_sealed true; clean_active].
   split; [repeat (apply Forall_cons; [reflexivity|]); apply Forall_nil|vm_compute; reflexivity].
 Qed.
 
-(* sizes 1, 10, 4 and limit 5: the pass pushes out two fractions; crash as above; after the start the
+(* sizes 1309, 1509, 196 and limit 1505 (the sizes of the real replay): the pass pushes out two fractions; crash as above; after the start the
    manager lists sizes 1 and 4, the limit holds, the following pass removes nothing: the gap stays *)
-Lemma par_prefix_eventually_refuted :
+Lemma par_prefix_eventually_v0_refuted :
   exists sorted limit sizes sched d0, Forall (fun s => clean sorted s = true) d0 /\ length sizes = length d0 /\
     let k := shrink limit sizes in
-    let d1 := after_crashed_pass sorted k sched d0 in
+    let d1 := after_crashed_pass_v0 sorted k sched d0 in
     let k' := shrink limit (live_sizes d1 sizes) in
     k = 2 /\ k' = 0 /\ prefix_shape (map alive (after_next_pass sorted k' d1)) = false.
 Proof.
-  exists true, 5%N, [1; 10; 4]%N, [1; 1], [clean_sealed true; clean_sealed true; clean_active].
+  exists true, 1505%N, [1309; 1509; 196]%N, [1; 1], [clean_sealed true; clean_sealed true; clean_active].
   split; [repeat (apply Forall_cons; [reflexivity|]); apply Forall_nil|]. split; [reflexivity|]. vm_compute. auto.
+Qed.
+
+(* ================================================================== the repaired code (14be38b): one
+   goroutine per pass deletes the outsiders one after another *)
+
+Lemma clean_cases sorted c : clean sorted c = true -> c = clean_sealed sorted \/ c = clean_active.
+Proof.
+  unfold clean. destruct c as [f h d p]; cbn [pr files hasdata doomed]. intro H.
+  apply andb_true_iff in H as [H H3]. apply andb_true_iff in H as [H1 H2]. subst h.
+  apply negb_true_iff in H2. subst d.
+  destruct p as [| |m| | |]; try discriminate. destruct m; try discriminate; apply fs_eqb_true in H3; subst f; auto.
+Qed.
+
+Definition deadS (s : st) : Prop := pr s = PIdle MGone /\ files s = empty_fs.
+Definition progS (sorted : bool) (s : st) : Prop := In s (prog_states sorted).
+Definition untouchedS (sorted : bool) (s : st) : Prop := exists c, clean sorted c = true /\ s = evict1 c.
+
+Definition is_idle_gone (s : st) : bool := match pr s with PIdle MGone => true | _ => false end.
+
+Lemma prog_closed sorted : forallb (fun m => mem (step1 sorted false m) (prog_states sorted)) (prog_states sorted) = true.
+Proof. destruct sorted; vm_compute; reflexivity. Qed.
+Lemma prog_returned sorted :
+  forallb (fun m => implb (suicide_returned m) (is_idle_gone m && fs_eqb (files m) empty_fs)) (prog_states sorted) = true.
+Proof. destruct sorted; vm_compute; reflexivity. Qed.
+Lemma prog_kinds sorted : forallb (fun m => is_deleting m || settled m) (prog_states sorted) = true.
+Proof. destruct sorted; vm_compute; reflexivity. Qed.
+
+Lemma untouched_prog sorted s : untouchedS sorted s -> progS sorted s.
+Proof.
+  intros [c [Hc E]]. subst s. unfold progS. apply mem_In.
+  destruct (clean_cases sorted c Hc) as [E|E]; subst c; destruct sorted; vm_compute; reflexivity.
+Qed.
+
+Lemma untouched_deleting sorted s : untouchedS sorted s -> is_deleting s = true /\ settled s = false.
+Proof.
+  intros [c [Hc E]]. subst s. destruct (clean_cases sorted c Hc) as [E|E]; subst c; destruct sorted; split; reflexivity.
+Qed.
+
+Lemma prog_step sorted m : progS sorted m -> progS sorted (step1 sorted false m).
+Proof.
+  unfold progS. intro H. pose proof (prog_closed sorted) as C. rewrite forallb_forall in C.
+  apply mem_In. apply C. exact H.
+Qed.
+
+Lemma prog_job_step sorted m : progS sorted m -> job_step1 sorted m = step1 sorted false m.
+Proof.
+  intro H. pose proof (prog_kinds sorted) as K. rewrite forallb_forall in K. specialize (K m H).
+  unfold job_step1, is_deleting, settled in *. destruct (pr m) eqn:E; try reflexivity; try discriminate.
+  - unfold step1. rewrite E. reflexivity.
+  - unfold step1. rewrite E. destruct m0; reflexivity.
+Qed.
+
+Lemma prog_dead sorted m : progS sorted m -> suicide_returned m = true -> deadS m.
+Proof.
+  intros H R. pose proof (prog_returned sorted) as K. rewrite forallb_forall in K. specialize (K m H).
+  rewrite R in K. cbn in K. apply andb_true_iff in K as [K1 K2]. split; [|apply fs_eqb_true; exact K2].
+  unfold is_idle_gone in K1. destruct (pr m) as [| |mm| | |]; try discriminate. destruct mm; try discriminate. reflexivity.
+Qed.
+
+Lemma prog_kind sorted m : progS sorted m -> is_deleting m = true \/ settled m = true.
+Proof.
+  intro H. pose proof (prog_kinds sorted) as K. rewrite forallb_forall in K. specialize (K m H).
+  apply orb_true_iff in K. exact K.
+Qed.
+
+Lemma dead_settled s : deadS s -> settled s = true.
+Proof. intros [H _]. unfold settled. rewrite H. reflexivity. Qed.
+
+Lemma evict_pos0 : forall d i, evict_pos 0 i d = [].
+Proof. induction d as [|s r IH]; intro i; cbn; [reflexivity|]. destruct (listed s); apply IH. Qed.
+
+Lemma evict_pos_all_listed : forall d k i, Forall (fun s => listed s = true) d ->
+  evict_pos k i d = seq i (length (firstn k d)).
+Proof.
+  induction d as [|s r IH]; intros k i H; [destruct k; reflexivity|].
+  inversion H; subst. cbn [evict_pos]. rewrite H2. destruct k.
+  - apply evict_pos0.
+  - cbn [firstn length seq]. rewrite IH by assumption. reflexivity.
+Qed.
+
+Definition seq_inv (sorted : bool) (fr : list st) (jobs : list (list nat)) : Prop :=
+  exists D P C, fr = D ++ P ++ C /\ jobs = [seq (length D) (length P)]
+    /\ Forall deadS D
+    /\ match P with [] => True | m :: U => progS sorted m /\ Forall (untouchedS sorted) U end
+    /\ Forall (fun s => clean sorted s = true) C.
+
+Lemma at_pos_nth_id {A} (f : A -> A) : forall l i s, nth_error l i = Some s -> f s = s -> at_pos i f l = l.
+Proof.
+  induction l as [|x r IH]; intros i s H E; [destruct i; discriminate|].
+  destruct i; cbn in *.
+  - inversion H; subst. rewrite E. reflexivity.
+  - rewrite (IH i s H E). reflexivity.
+Qed.
+
+Lemma at_pos_mid {A} (f : A -> A) (D : list A) x R : at_pos (length D) f (D ++ x :: R) = D ++ f x :: R.
+Proof. induction D as [|y r IH]; cbn; [reflexivity|]. rewrite IH. reflexivity. Qed.
+
+(* an element that is not settled sits in the queued stretch *)
+Lemma unsettled_pos sorted D P C i s :
+  Forall deadS D -> Forall (fun s => clean sorted s = true) C ->
+  nth_error (D ++ P ++ C) i = Some s -> settled s = false ->
+  In i (seq (length D) (length P)) /\ In s P.
+Proof.
+  intros HD HC Hn Hs.
+  destruct (Nat.lt_ge_cases i (length D)) as [L|L].
+  - rewrite nth_error_app1 in Hn by exact L. apply nth_error_In in Hn.
+    rewrite Forall_forall in HD. rewrite (dead_settled s (HD s Hn)) in Hs. discriminate.
+  - rewrite nth_error_app2 in Hn by exact L.
+    destruct (Nat.lt_ge_cases (i - length D) (length P)) as [L2|L2].
+    + rewrite nth_error_app1 in Hn by exact L2. split; [apply in_seq; lia|eapply nth_error_In; exact Hn].
+    + rewrite nth_error_app2 in Hn by exact L2. apply nth_error_In in Hn.
+      rewrite Forall_forall in HC. rewrite (clean_settled sorted s (HC s Hn)) in Hs. discriminate.
+Qed.
+
+Lemma in_jobs_single i q : In i q -> in_jobs i [q] = true.
+Proof.
+  intro H. unfold in_jobs. cbn. rewrite orb_false_r. apply existsb_exists. exists i. split; [exact H|apply Nat.eqb_refl].
+Qed.
+
+Lemma P_deleting sorted P s : match P with [] => True | m :: U => progS sorted m /\ Forall (untouchedS sorted) U end ->
+  In s P -> settled s = false -> is_deleting s = true.
+Proof.
+  destruct P as [|m U]; [intros _ []|]. intros [Hm HU] [E|Hin] Hs.
+  - subst. destruct (prog_kind sorted s Hm) as [K|K]; [exact K|congruence].
+  - rewrite Forall_forall in HU. apply (untouched_deleting sorted s (HU s Hin)).
+Qed.
+
+Lemma seq_step_inv sorted fr jobs e : step_only e = true -> seq_inv sorted fr jobs ->
+  let d' := dstep true sorted (mkd true fr jobs) e in
+  d_up d' = true /\ seq_inv sorted (d_fr d') (d_jobs d').
+Proof.
+  intros He [D [P [C [Efr [Ejobs [HD [HP HC]]]]]]]. cbv zeta.
+  assert (I0 : seq_inv sorted fr jobs) by (exists D, P, C; auto).
+  destruct e; try discriminate; unfold dstep; cbn [d_up d_fr d_jobs].
+  - (* DJob *)
+    destruct (nth j jobs []) as [|h r] eqn:Ej; [split; [reflexivity|exact I0]|].
+    assert (X : j = 0 /\ h :: r = seq (length D) (length P)).
+    { rewrite Ejobs in Ej. destruct j as [|[|j]]; cbn in Ej; try discriminate. auto. }
+    destruct X as [Ej0 Eq]. subst j. destruct P as [|m U]; [discriminate|].
+    + cbn [length seq] in Eq. inversion Eq; subst h r. destruct HP as [Hm HU].
+      assert (Hn : nth_error fr (length D) = Some m).
+      { rewrite Efr. rewrite nth_error_app2 by lia. rewrite Nat.sub_diag. reflexivity. }
+      rewrite Hn. destruct (suicide_returned m) eqn:R; cbn [d_up d_fr d_jobs].
+      * split; [reflexivity|]. exists (D ++ [m]), U, C. repeat split.
+        -- rewrite Efr. rewrite <- app_assoc. reflexivity.
+        -- rewrite Ejobs. cbn [set_nth]. rewrite app_length. cbn. rewrite Nat.add_1_r. reflexivity.
+        -- apply Forall_app. split; [exact HD|]. constructor; [eapply prog_dead; eauto|constructor].
+        -- destruct U as [|u U']; [exact I|]. inversion HU; subst. split; [apply untouched_prog; assumption|assumption].
+        -- exact HC.
+      * split; [reflexivity|]. exists D, (job_step1 sorted m :: U), C. repeat split.
+        -- rewrite Efr. cbn [app]. apply at_pos_mid.
+        -- rewrite Ejobs. reflexivity.
+        -- exact HD.
+        -- rewrite prog_job_step by exact Hm. apply prog_step. exact Hm.
+        -- exact HU.
+        -- exact HC.
+  - (* DStep *)
+    destruct (nth_error fr i) as [s|] eqn:Hn; [|split; [reflexivity|exact I0]].
+    destruct (true && in_jobs i jobs && is_deleting s) eqn:G; cbn [d_up d_fr d_jobs]; [split; [reflexivity|exact I0]|].
+    split; [reflexivity|].
+    assert (Es : step1 sorted false s = s).
+    { destruct (settled s) eqn:S; [apply step1_settled; exact S|]. exfalso.
+      rewrite Efr in Hn. destruct (unsettled_pos sorted D P C i s HD HC Hn S) as [Hi Hs].
+      rewrite Ejobs, (in_jobs_single _ _ Hi), (P_deleting sorted P s HP Hs S) in G. discriminate. }
+    rewrite (at_pos_nth_id _ fr i s Hn Es). exact I0.
+  - (* DStepR *)
+    destruct (true && in_jobs i jobs) eqn:G; cbn [d_up d_fr d_jobs]; [split; [reflexivity|exact I0]|].
+    split; [reflexivity|].
+    destruct (nth_error fr i) as [s|] eqn:Hn; [|rewrite at_pos_out by exact Hn; exact I0].
+    assert (Es : step1 sorted true s = s).
+    { destruct (settled s) eqn:S; [apply step1_settled; exact S|]. exfalso.
+      rewrite Efr in Hn. destruct (unsettled_pos sorted D P C i s HD HC Hn S) as [Hi Hs].
+      rewrite Ejobs, (in_jobs_single _ _ Hi) in G. discriminate. }
+    rewrite (at_pos_nth_id _ fr i s Hn Es). exact I0.
+Qed.
+
+Lemma seq_run_inv sorted sched : forall fr jobs, seq_inv sorted fr jobs ->
+  let d' := fold_left (dstep true sorted) (filter step_only sched) (mkd true fr jobs) in
+  seq_inv sorted (d_fr d') (d_jobs d').
+Proof.
+  induction sched as [|e r IH]; intros fr jobs H; [exact H|].
+  cbn [filter]. destruct (step_only e) eqn:E; [|apply IH; exact H].
+  cbn [fold_left]. destruct (seq_step_inv sorted fr jobs e E H) as [U I].
+  remember (dstep true sorted (mkd true fr jobs) e) as d1. destruct d1 as [u f j]. cbn in U, I. subst u.
+  apply IH. exact I.
+Qed.
+
+Lemma seq_pass_inv sorted k sched d0 : Forall (fun s => clean sorted s = true) d0 ->
+  let d' := drun sorted (DPass k :: filter step_only sched) (mkd true d0 []) in
+  seq_inv sorted (d_fr d') (d_jobs d').
+Proof.
+  intro H. unfold drun. cbn [fold_left]. unfold dstep at 2. cbn [d_up d_fr d_jobs app].
+  apply seq_run_inv.
+  assert (HL : Forall (fun s => listed s = true) d0).
+  { rewrite Forall_forall in *. intros s Hs. eapply clean_listed. apply H. exact Hs. }
+  rewrite evict_first_all_listed, evict_pos_all_listed by exact HL.
+  exists [], (map evict1 (firstn k d0)), (skipn k d0). repeat split.
+  - cbn. rewrite map_length. reflexivity.
+  - constructor.
+  - assert (HU : Forall (untouchedS sorted) (map evict1 (firstn k d0))).
+    { rewrite Forall_forall. intros s Hs. apply in_map_iff in Hs as [c [E Hc]]. exists c. split; [|auto].
+      rewrite Forall_forall in H. apply H. rewrite <- (firstn_skipn k d0). apply in_or_app. left. exact Hc. }
+    destruct (map evict1 (firstn k d0)) as [|m U]; [exact I|]. inversion HU; subst.
+    split; [apply untouched_prog; assumption|assumption].
+  - rewrite Forall_forall in *. intros s Hs. apply H. rewrite <- (firstn_skipn k d0). apply in_or_app. right. exact Hs.
+Qed.
+
+(* ------------------------------------------------------------------ what a complete start makes of it *)
+
+Definition start1 (sorted : bool) (s : st) (b : bool) : st :=
+  finish sorted (match pr s with PDown => restart cur_progs sorted s b | _ => s end).
+
+Lemma restart_all_alive sorted (Q : st -> Prop) v :
+  (forall s b, Q s -> alive (start1 sorted (crash1 s) b) = v) ->
+  forall A B, Forall Q A ->
+    map alive (restart_all sorted (map crash1 (A ++ B))) = repeat v (length A) ++ map alive (restart_all sorted (map crash1 B)).
+Proof.
+  intros HQ A B HA. induction HA as [|a r Ha _ IH]; [reflexivity|].
+  cbn [app map restart_all length repeat]. fold (start1 sorted (crash1 a) (existsb live_active_s (map crash1 (r ++ B)))).
+  rewrite HQ by exact Ha. rewrite IH. reflexivity.
+Qed.
+
+Lemma start1_settled sorted s b : settled (start1 sorted (crash1 s) b) = true.
+Proof.
+  unfold start1. destruct (crash1_pr s) as [Hd|Hs].
+  - rewrite Hd. apply restart_finish_settled. exact Hd.
+  - assert (E : (match pr (crash1 s) with PDown => restart cur_progs sorted (crash1 s) b | _ => crash1 s end) = crash1 s).
+    { unfold settled in Hs. destruct (pr (crash1 s)); try reflexivity. discriminate. }
+    rewrite E. rewrite finish_settled by exact Hs. exact Hs.
+Qed.
+
+Lemma restart_all_settled sorted : forall d, Forall (fun s => settled s = true) (restart_all sorted (map crash1 d)).
+Proof.
+  induction d as [|s r IH]; cbn [map restart_all]; constructor; [|exact IH].
+  apply (start1_settled sorted s).
+Qed.
+
+Lemma dead_start sorted s b : deadS s -> alive (start1 sorted (crash1 s) b) = false.
+Proof.
+  intros [Hp Hf]. destruct s as [f h d p]. cbn in Hp, Hf. subst p f.
+  unfold start1, alive. cbn [crash1 pr setp]. rewrite pr_finish. destruct h, d, b, sorted; reflexivity.
+Qed.
+
+Lemma clean_start sorted s b : clean sorted s = true -> alive (start1 sorted (crash1 s) b) = true.
+Proof.
+  intro H. destruct (clean_restart_alive sorted s b H) as [Hd [Ha _]]. unfold start1. rewrite Hd. exact Ha.
+Qed.
+
+Lemma untouched_start sorted s b : untouchedS sorted s -> alive (start1 sorted (crash1 s) b) = true.
+Proof.
+  intros [c [Hc E]]. subst s.
+  assert (X : crash1 (evict1 c) = crash1 c) by (destruct (clean_cases sorted c Hc) as [E|E]; subst c; destruct sorted; reflexivity).
+  rewrite X. apply clean_start. exact Hc.
+Qed.
+
+Lemma prefix_shape_false a l : prefix_shape (repeat false a ++ l) = prefix_shape l.
+Proof. induction a; cbn; auto. Qed.
+Lemma forallb_repeat_true a : forallb (fun b : bool => b) (repeat true a) = true.
+Proof. induction a; cbn; auto. Qed.
+Lemma prefix_shape_true a : prefix_shape (repeat true a) = true.
+Proof. destruct a; cbn; [reflexivity|apply forallb_repeat_true]. Qed.
+
+Lemma par_prefix_at_restart sorted k sched d0 : Forall (fun s => clean sorted s = true) d0 ->
+  prefix_shape (map alive (after_crashed_pass sorted k sched d0)) = true
+  /\ Forall (fun s => settled s = true) (after_crashed_pass sorted k sched d0).
+Proof.
+  intro H. unfold after_crashed_pass. split; [|apply restart_all_settled].
+  destruct (seq_pass_inv sorted k sched d0 H) as [D [P [C [Efr [_ [HD [HP HC]]]]]]].
+  rewrite Efr.
+  rewrite (restart_all_alive sorted deadS false) by (auto using dead_start).
+  rewrite prefix_shape_false.
+  assert (EC : map alive (restart_all sorted (map crash1 C)) = repeat true (length C)).
+  { rewrite <- (app_nil_r C) at 1. rewrite (restart_all_alive sorted (fun s => clean sorted s = true) true) by (auto using clean_start).
+    cbn. apply app_nil_r. }
+  destruct P as [|m U].
+  - cbn [app]. rewrite EC. apply prefix_shape_true.
+  - destruct HP as [_ HU]. cbn [app map restart_all].
+    rewrite (restart_all_alive sorted (untouchedS sorted) true) by (auto using untouched_start).
+    rewrite EC. rewrite <- repeat_app.
+    destruct (alive _); cbn [prefix_shape]; [apply forallb_repeat_true|apply prefix_shape_true].
+Qed.
+
+Lemma pat_keeps_prefix : forall l k, prefix_shape l = true -> prefix_shape (pat k l) = true.
+Proof.
+  induction l as [|b r IH]; intros k H; [reflexivity|]. destruct b.
+  - cbn in H. destruct k; cbn [pat prefix_shape].
+    + rewrite pat0. exact H.
+    + apply pat_all_true. exact H.
+  - assert (E : pat k (false :: r) = false :: pat k r) by (destruct k; reflexivity).
+    rewrite E. cbn [prefix_shape]. apply IH. exact H.
+Qed.
+
+(* after the restart ANY following pass (any k', in particular the one the size rule chooses) leaves a prefix *)
+Lemma par_prefix_eventually sorted k sched k' d0 : Forall (fun s => clean sorted s = true) d0 ->
+  prefix_shape (map alive (after_next_pass sorted k' (after_crashed_pass sorted k sched d0))) = true.
+Proof.
+  intro H. destruct (par_prefix_at_restart sorted k sched d0 H) as [H1 H2].
+  rewrite next_pass_pat by exact H2. apply pat_keeps_prefix. exact H1.
+Qed.
+
+(* two passes in flight (a later maintenance step starts its pass goroutine while the first one has not
+   started its deletion yet, e.g. because it waits for a reader or a seal): the second goroutine deletes a
+   newer fraction first *)
+Lemma par_overlapping_passes_refuted :
+  exists sorted evs d0, Forall (fun s => clean sorted s = true) d0 /\
+    prefix_shape (map alive (restart_all sorted (map crash1 (d_fr (drun sorted evs (mkd true d0 [])))))) = false.
+Proof.
+  exists true, [DPass 1; DPass 1; DJob 1; DJob 1; DJob 1], [clean_sealed true; clean_sealed true; clean_active].
+  split; [repeat (apply Forall_cons; [reflexivity|]); apply Forall_nil|vm_compute; reflexivity].
 Qed.
